@@ -356,6 +356,11 @@ def ref_encode(et, v, out):
 
 # ---- catalogue / property -------------------------------------------------------------------------------------
 LONG = 'long'
+# calls for the binary codec: the JSON list plus diploid calls on both sides of the decoder's small-table / allele_pair_sqrt
+# boundary (genotype index 36 = 0/8), triangular indices 0/k, their neighbours, the largest encodable pair and phased ones
+CALLS33 = list(J.CALLS) + [((0, 8), False), ((0, 9), False), ((7, 8), False), ((1, 8), False), ((8, 8), False), ((7, 7), False),
+                           ((0, 20000), False), ((16383, 32767), False), ((0, 8), True), ((3, 9), True), ((8, 0), True),
+                           ((0, 300), True)]
 
 
 def catalogue(tier):
@@ -365,10 +370,10 @@ def catalogue(tier):
           T.tndarray(T.tfloat64, 1), T.tndarray(T.tfloat64, 2), T.tndarray(T.tfloat64, 3)]
     q = list(prims) + [T.tarray(T.tint32), (T.tarray(T.tbool), LONG), T.tarray(T.tstr), T.tset(T.tint64), T.tdict(T.tstr, T.tint32),
                        T.tstruct(a=T.tfloat64, b=T.tbool), T.ttuple(L, T.tbool, T.tstr), T.tinterval(T.tint32),
-                       nd[1], nd[6], T.tarray(T.tstruct(a=T.tint32, b=T.tstr))]
+                       nd[1], nd[6], T.tarray(T.tstruct(a=T.tint32, b=T.tint64))]
     if tier == 'quick':
         return q
-    out = list(q) + [T.tstruct(a=T.tfloat64, b=T.tcall), T.tdict(T.tstr, T.tarray(T.tint32))]
+    out = list(q) + [T.tarray(T.tstruct(a=T.tint32, b=T.tstr)), T.tstruct(a=T.tfloat64, b=T.tcall), T.tdict(T.tstr, T.tarray(T.tint32))]
     out += [T.tarray(p) for p in prims] + [T.tset(p) for p in (T.tint32, T.tstr, T.tcall, L)]
     out += [T.tdict(T.tint32, T.tfloat64), T.tdict(L, T.tcall), T.tdict(T.tstr, T.tstr), (T.tarray(T.tint64), LONG)]
     out += [T.tstruct(), T.tstruct(a=T.tint32, b=T.tstr, c=T.tbool), T.ttuple(), T.ttuple(T.tfloat32, T.tcall)]
@@ -414,7 +419,10 @@ def value(k, ints, floats, ks, bools, miss, lens):
     t, long = entry(k)
     FLOAT_MODE = 'real' if has_ndarray(t) else 'bits'
     J.FLOAT_HOOK = None if FLOAT_MODE == 'real' else _float_hook
+    if long:
+        bools = [True, False]        # long arrays: element values fixed, only length and missingness symbolic
     P = J.Pool(ints, floats, ks, bools, miss, lens, dict_missing=True)
+    J.CALLS_OVERRIDE = CALLS33
     try:
         if long:
             n = 7 + P.nx('n')
@@ -422,6 +430,7 @@ def value(k, ints, floats, ks, bools, miss, lens):
         return J.mk(t, P, allow_missing=False)
     finally:
         J.FLOAT_HOOK = None
+        J.CALLS_OVERRIDE = None
 
 
 def check(k, v):
@@ -459,7 +468,7 @@ def reach_{K}({SIG}) -> bool:
 
 
 def source(tier, ks):
-    pre = J.PRE.format(N1MAX=1 if tier == 'quick' else 2)
+    pre = J.PRE.format(N1MAX=1 if tier == 'quick' else 2, CMAX=len(CALLS33))
     return (f'from harness import C33_enc as H\nH.TYPES[:] = H.catalogue({tier!r})\n'
             'H.ETYPES[:] = [H.etype(H.entry(k)[0]) for k in range(len(H.TYPES))]\n'
             'property_holds = H.property_holds\nvalue = H.value\nencode = H.encode\nentry = H.entry\n'
